@@ -327,9 +327,21 @@ func checkContracts(c *Ctx, scope []*ssa.Function) {
 		if callee == nil {
 			continue // helper renamed/removed: its sites are then audited without assumptions
 		}
+		allLib := map[*ssa.Function]bool{}
 		for _, fn := range c.P.AllLibFuncs() {
-			sites := callsTo(fn, callee)
-			if len(sites) == 0 {
+			allLib[fn] = true
+		}
+		for _, fn := range c.P.AllLibFuncs() {
+			if contextualHelper(c.P, fn, allLib) {
+				continue // its call sites are proved in the context of every caller
+			}
+			nSites := 0
+			for gf := range helperGroup(c.P, fn) {
+				if gf == fn || c.P.IsNewHelper(gf) {
+					nSites += len(callsTo(gf, callee))
+				}
+			}
+			if nSites == 0 {
 				continue
 			}
 			g := NewGate(c.P)
@@ -338,9 +350,25 @@ func checkContracts(c *Ctx, scope []*ssa.Function) {
 				g.Pure[n] = true
 			}
 			g.NoInline[FuncName(callee)] = true
-			s := g.Eval(fn)
+			sTop := g.Eval(fn)
 			u := g.U
-			for _, site := range sites {
+			type actSite struct {
+				act  *Summary
+				site ssa.CallInstruction
+			}
+			var sites []actSite
+			for _, st := range callsTo(fn, callee) {
+				sites = append(sites, actSite{sTop, st})
+			}
+			for _, sub := range g.Subs {
+				if c.P.IsNewHelper(sub.Fn) {
+					for _, st := range callsTo(sub.Fn, callee) {
+						sites = append(sites, actSite{sub, st})
+					}
+				}
+			}
+			for _, as := range sites {
+				s, site := as.act, as.site
 				rc := s.RC[site.Block()]
 				var args []*E
 				for _, a := range site.Common().Args {
@@ -371,7 +399,7 @@ func checkContracts(c *Ctx, scope []*ssa.Function) {
 							}
 							L := NewLin(u)
 							L.onTrue = func(at *E) { assumePredicate(c, g, L, at) }
-							loopFacts(L, g, s, fn)
+							loopFacts(L, g, s, s.Fn)
 							contractFacts(L, g, fn)
 							L.assumeCond(cond)
 							L.registerTerms(lleaf)
